@@ -4,7 +4,7 @@ import copy
 
 import numpy as np
 
-from . import ref
+from . import ref, pristine
 from .core import Result, quiet, digest_of
 from .oracle import diff, fingerprint, outcome
 from .simcfg import gen_sim_cfg, simpler_sim_cfgs
@@ -112,13 +112,11 @@ def live_options(plan):
 
 
 def ref_slice(sl, fs, f_range, settings, rs):
-    """Reference for one 2-D slice: the flattened-epoch analysis, called directly."""
-    from bycycle.group import compute_features_2d
+    """Reference for one 2-D slice: the flattened-epoch analysis, called directly (pristine fork)."""
     kw = ref.live(settings)
     if 'threshold_kwargs' in kw and kw['threshold_kwargs'] is None:
         del kw['threshold_kwargs']
-    return outcome(compute_features_2d, sl.copy(), fs, tuple(f_range), compute_features_kwargs=kw,
-                   axis=None, return_samples=rs, n_jobs=1)
+    return ref.ref_group(sl, fs, f_range, kw, None, rs)
 
 
 def execute(plan, tape):
@@ -127,12 +125,12 @@ def execute(plan, tape):
     fs, f_range = band['fs'], tuple(band['f_range'])
     n0, n1 = plan['shape']
     sigs = np.array([[build_signal(s, band) for s in row] for row in plan['sigs']])
-    pristine = sigs.copy()
+    sigs0 = sigs.copy()
     axis = _axis(plan)
     akey = 'axis' + str(plan['axis'])
 
     # ---- reference (sequential, fresh copies, no pool) -----------------------------
-    with quiet():
+    with quiet(), pristine.active():
         if axis == (0, 1):
             refs = [[None] * n1 for _ in range(n0)]
             for i in range(n0):
@@ -204,7 +202,7 @@ def execute(plan, tape):
             check_result(plan, res, out, refs, axis, n0, n1)
             if res.vclass is None and bg is not None:
                 check_models(res, bg, out, sigs, fs, f_range, n0, n1)
-            d = diff(sigs, pristine)
+            d = diff(sigs, sigs0)
             if d and res.vclass is None:
                 res.violate('input-mutated', 'sigs', 'the caller\'s 3-D array was modified: ' + d)
 
